@@ -15,6 +15,7 @@ type Case struct {
 	Mode       string   `json:"mode"`       // --tx-mode: file | all | none
 	Directives []string `json:"directives"` // per file: "" | "none" | "file" (atlas:txmode directive)
 	Checkpoint int      `json:"checkpoint,omitempty"` // 1-based index of the journal file that is a checkpoint (0 = none): a fresh database starts there, earlier files never run
+	Earlier    []int    `json:"earlier,omitempty"`    // 1-based indexes of further checkpoint files before Checkpoint (skipped like every other earlier file)
 	K          int      `json:"k"`          // crash at the K-th instrumented point reached (0 = probe run without crash)
 	Point      string   `json:"point"`      // name of that point (from the probe; informational)
 }
@@ -28,7 +29,11 @@ func (c Case) files() map[string]string {
 		if f < len(c.Directives) && c.Directives[f] != "" {
 			b.WriteString("-- atlas:txmode " + c.Directives[f] + "\n\n")
 		}
-		if c.Checkpoint == f+1 {
+		earlier := false
+		for _, e := range c.Earlier {
+			earlier = earlier || e == f+1
+		}
+		if c.Checkpoint == f+1 || earlier {
 			// a checkpoint holds the whole schema: it creates the journal itself
 			b.WriteString("-- atlas:checkpoint\n\nCREATE TABLE IF NOT EXISTS journal (id integer);\n")
 		}
